@@ -423,213 +423,229 @@ pub fn random_program(rng: &mut Rng) -> Init {
     init
 }
 
-pub fn run(ctx: &Ctx) -> Report {
-    let template = real::blank_machine();
-    let two_byte_samples = ctx.size(400, 6000) as usize;
-    let misc_samples = ctx.size(2000, 40000) as usize;
-    let seq_programs = ctx.size(5000, 150_000) as usize;
-    // work items:
-    //   0..128*256         ALU: (opcode index, a) -> all b, carry-in
-    //   then 36*4 unary (op, reg) items, 8 JR items, 5 FR items, 16*88 two-byte items, 64 misc items, seq batches
-    let n_alu = 128 * 256;
-    let n_unary = 9 * 4;
-    let n_jr = 8;
-    let n_fr = 5;
-    let n_two = 16 * 96;
-    let n_misc = 64;
-    let seq_batches = (seq_programs + 9) / 10;
-    let total = n_alu + n_unary + n_jr + n_fr + n_two + n_misc + seq_batches;
-    let mut rep = par_items(ctx.threads, total, ctx.seed, |i, seed, rep| {
-        let mut rng = Rng::new(seed);
-        let mut idx = i;
-        if idx < n_alu {
-            let opi = idx / 256;
-            let a = (idx % 256) as u8;
-            let base = ALU_BASES[opi / 16];
-            let pair = (opi % 16) as u8;
-            let (d, s) = ((pair & 3) as usize, (pair >> 2) as usize);
-            let op = base | pair;
-            let mut done = 0u64;
-            for b in 0..=255u8 {
-                // operand values: Rd = a, Rs = b
-                if d == s && a != b {
-                    continue;
-                }
-                // PC-involving operands have the value implied by placement
-                let pc_after_fetch = if d == 3 { Some(a) } else if s == 3 { Some(b) } else { None };
-                let code_at = match pc_after_fetch {
-                    Some(v) => {
-                        if v == 0 || v > 0xF0 {
-                            continue;
-                        }
-                        v - 1
-                    }
-                    None => 0x10,
-                };
-                for &cin in &[0u8, 1] {
-                    let mut init = Init::zero();
-                    init.ram[code_at as usize] = op;
-                    init.regs = [0x11, 0x22, 0x33, code_at, 0xA0 | cin | (b & 0x06), 0xE0];
-                    if d < 3 {
-                        init.regs[d] = a;
-                    }
-                    if s < 3 {
-                        init.regs[s] = b;
-                    }
-                    let res = run_case(&template, &init, 1, rep, None);
-                    done += 1;
-                    record(rep, &init, 1, res);
-                }
+/// Workload sizes of the shared single-instruction / sequence case generator.
+#[derive(Clone, Copy)]
+pub struct Sizes {
+    pub two_byte_samples: usize,
+    pub misc_samples: usize,
+    pub seq_programs: usize,
+    /// stride over the Rs operand value for the non-MUL/DIV ALU opcodes (1 = exhaustive)
+    pub alu_stride: usize,
+}
+
+const N_ALU: usize = 128 * 256;
+const N_UNARY: usize = 9 * 4;
+const N_JR: usize = 8;
+const N_FR: usize = 5;
+const N_TWO: usize = 16 * 96;
+const N_MISC: usize = 64;
+
+pub fn n_items(sz: &Sizes) -> usize {
+    N_ALU + N_UNARY + N_JR + N_FR + N_TWO + N_MISC + (sz.seq_programs + 9) / 10
+}
+
+/// Enumerate the cases of work item `i`. `emit(group, init, instructions, second_byte_hint)`.
+pub fn cases(i: usize, seed: u64, sz: &Sizes, emit: &mut dyn FnMut(&'static str, &Init, usize, Option<u8>)) {
+    let mut rng = Rng::new(seed);
+    let mut idx = i;
+    if idx < N_ALU {
+        let opi = idx / 256;
+        let a = (idx % 256) as u8;
+        let base = ALU_BASES[opi / 16];
+        let pair = (opi % 16) as u8;
+        let (d, s) = ((pair & 3) as usize, (pair >> 2) as usize);
+        let op = base | pair;
+        let stride = if base == 0xB0 || base == 0xC0 { 1 } else { sz.alu_stride.max(1) };
+        let mut b16 = (a as usize * 7) % stride;
+        while b16 < 256 {
+            let b = b16 as u8;
+            b16 += stride;
+            // operand values: Rd = a, Rs = b
+            if d == s && a != b {
+                continue;
             }
-            rep.count("alu_cases", done);
-            if d != 3 && s != 3 && d != s {
-                rep.count("alu_pairs_exhaustive", 0);
-            }
-            rep.count("alu_pairs_exhaustive", 256);
-            if idx == 0x60 * 0 + 5 {
-                rep.sample(obj![("tier", "exhaustive ALU"), ("opcode", format!("{:#04x}", op)), ("rd_value", a), ("rs_values", "0..=255"), ("carry_in", "0,1")]);
-            }
-            return;
-        }
-        idx -= n_alu;
-        if idx < n_unary {
-            let bases: [u8; 9] = [0x04, 0x30, 0x34, 0x38, 0x3C, 0x40, 0x44, 0x50, 0x48];
-            let op = bases[idx / 4] | (idx % 4) as u8;
-            let reg = idx % 4;
-            for v in 0..=255u8 {
-                let code_at = if reg == 3 {
+            // PC-involving operands have the value implied by placement
+            let pc_after_fetch = if d == 3 { Some(a) } else if s == 3 { Some(b) } else { None };
+            let code_at = match pc_after_fetch {
+                Some(v) => {
                     if v == 0 || v > 0xF0 {
                         continue;
                     }
                     v - 1
-                } else {
-                    0x20
-                };
-                for fl in 0..16u8 {
-                    let mut init = Init::zero();
-                    init.ram[code_at as usize] = op;
-                    init.regs = [0x55, 0x66, 0x77, code_at, fl | (v & 0xF0), 0xD8];
-                    if reg < 3 {
-                        init.regs[reg] = v;
+                }
+                None => 0x10,
+            };
+            for &cin in &[0u8, 1] {
+                let mut init = Init::zero();
+                init.ram[code_at as usize] = op;
+                init.regs = [0x11, 0x22, 0x33, code_at, 0xA0 | cin | (b & 0x06), 0xE0];
+                if d < 3 {
+                    init.regs[d] = a;
+                }
+                if s < 3 {
+                    init.regs[s] = b;
+                }
+                emit("alu", &init, 1, None);
+            }
+        }
+        return;
+    }
+    idx -= N_ALU;
+    if idx < N_UNARY {
+        let bases: [u8; 9] = [0x04, 0x30, 0x34, 0x38, 0x3C, 0x40, 0x44, 0x50, 0x48];
+        let op = bases[idx / 4] | (idx % 4) as u8;
+        let reg = idx % 4;
+        for v in 0..=255u8 {
+            let code_at = if reg == 3 {
+                if v == 0 || v > 0xF0 {
+                    continue;
+                }
+                v - 1
+            } else {
+                0x20
+            };
+            for fl in 0..16u8 {
+                let mut init = Init::zero();
+                init.ram[code_at as usize] = op;
+                init.regs = [0x55, 0x66, 0x77, code_at, fl | (v & 0xF0), 0xD8];
+                if reg < 3 {
+                    init.regs[reg] = v;
+                }
+                emit("unary", &init, 1, None);
+            }
+        }
+        return;
+    }
+    idx -= N_UNARY;
+    if idx < N_JR {
+        let op = 0x20 | idx as u8;
+        for off in 0..=255u8 {
+            for fl in 0..16u8 {
+                let mut init = Init::zero();
+                let code_at = 0x40u8;
+                init.ram[code_at as usize] = op;
+                init.ram[code_at as usize + 1] = off;
+                init.regs = [1, 2, 3, code_at, fl | 0x50, 0xE0];
+                emit("jr", &init, 1, None);
+            }
+        }
+        return;
+    }
+    idx -= N_JR;
+    if idx < N_FR {
+        for fr in 0..=255u8 {
+            for k in 0..4u8 {
+                let mut init = Init::zero();
+                let code_at = 0x30u8;
+                let sp = 0xC0 + k;
+                match idx {
+                    0 => init.ram[0x30] = 0x08 | k,
+                    1 => init.ram[0x30] = 0x0C | k,
+                    2 => init.ram[0x30] = 0x18 | k,
+                    3 => {
+                        init.ram[0x30] = 0x1C | k;
+                        init.ram[sp as usize] = fr;
                     }
-                    let res = run_case(&template, &init, 1, rep, None);
-                    record(rep, &init, 1, res);
-                    rep.count("unary_cases", 1);
-                }
-            }
-            return;
-        }
-        idx -= n_unary;
-        if idx < n_jr {
-            let op = 0x20 | idx as u8;
-            for off in 0..=255u8 {
-                for fl in 0..16u8 {
-                    let mut init = Init::zero();
-                    let code_at = 0x40u8;
-                    init.ram[code_at as usize] = op;
-                    init.ram[code_at as usize + 1] = off;
-                    init.regs = [1, 2, 3, code_at, fl | 0x50, 0xE0];
-                    let res = run_case(&template, &init, 1, rep, None);
-                    record(rep, &init, 1, res);
-                    rep.count("jr_cases", 1);
-                }
-            }
-            return;
-        }
-        idx -= n_jr;
-        if idx < n_fr {
-            for fr in 0..=255u8 {
-                for k in 0..4u8 {
-                    let mut init = Init::zero();
-                    let code_at = 0x30u8;
-                    let sp = 0xC0 + k;
-                    match idx {
-                        0 => init.ram[0x30] = 0x08 | k,
-                        1 => init.ram[0x30] = 0x0C | k,
-                        2 => init.ram[0x30] = 0x18 | k,
-                        3 => {
-                            init.ram[0x30] = 0x1C | k;
-                            init.ram[sp as usize] = fr;
-                        }
-                        _ => {
-                            // LDFR Rk (k<3), or LDFR #imm
-                            if k < 3 {
-                                init.ram[0x30] = 0xF0 | k;
-                                init.ram[0x31] = 0x44;
-                            } else {
-                                init.ram[0x30] = 0xFB;
-                                init.ram[0x31] = fr;
-                                init.ram[0x32] = 0x45;
-                            }
+                    _ => {
+                        // LDFR Rk (k<3), or LDFR #imm
+                        if k < 3 {
+                            init.ram[0x30] = 0xF0 | k;
+                            init.ram[0x31] = 0x44;
+                        } else {
+                            init.ram[0x30] = 0xFB;
+                            init.ram[0x31] = fr;
+                            init.ram[0x32] = 0x45;
                         }
                     }
-                    init.regs = [fr, fr, fr, code_at, if idx == 3 || idx == 4 { !fr } else { fr }, sp];
-                    let sh = if idx == 4 { Some(if k < 3 { 0x44 } else { 0x45 }) } else { None };
-                    let res = run_case(&template, &init, 1, rep, sh);
-                    record(rep, &init, 1, res);
-                    rep.count("fr_cases", 1);
                 }
+                init.regs = [fr, fr, fr, code_at, if idx == 3 || idx == 4 { !fr } else { fr }, sp];
+                let sh = if idx == 4 { Some(if k < 3 { 0x44 } else { 0x45 }) } else { None };
+                emit("fr", &init, 1, sh);
             }
+        }
+        return;
+    }
+    idx -= N_FR;
+    if idx < N_TWO {
+        let first = 0xF0 | (idx / 96) as u8;
+        let second = 0x10 + (idx % 96) as u8;
+        if !second_defined(second) {
             return;
         }
-        idx -= n_fr;
-        if idx < n_two {
-            let first = 0xF0 | (idx / 96) as u8;
-            let second = 0x10 + (idx % 96) as u8;
-            if !second_defined(second) {
-                return;
+        for _ in 0..sz.two_byte_samples {
+            let code_at = if rng.chance(1, 8) { 0xEA + rng.below(4) as u8 } else { 0x08 + rng.below(0xC0) as u8 };
+            let mut code = vec![first];
+            let smode = (first >> 2) & 3;
+            if first & 3 == 3 && smode >= 2 {
+                code.push(pointer_biased(&mut rng));
             }
-            for _ in 0..two_byte_samples {
-                let code_at = if rng.chance(1, 8) { 0xEA + rng.below(4) as u8 } else { 0x08 + rng.below(0xC0) as u8 };
-                let mut code = vec![first];
-                let smode = (first >> 2) & 3;
-                if first & 3 == 3 && smode >= 2 {
-                    code.push(pointer_biased(&mut rng));
-                }
-                code.push(second);
-                let dmode = (second >> 2) & 3;
-                if second & 3 == 3 && dmode >= 2 && !(0x40..0x48).contains(&second) {
-                    code.push(pointer_biased(&mut rng));
-                }
-                let mut init = random_init(&mut rng, code_at, &code);
-                // make register pointers that are PC consistent: regs[3] is the placement
-                init.regs[3] = code_at;
-                let res = run_case(&template, &init, 1, rep, Some(second));
-                record(rep, &init, 1, res);
-                rep.count("two_byte_cases", 1);
+            code.push(second);
+            let dmode = (second >> 2) & 3;
+            if second & 3 == 3 && dmode >= 2 && !(0x40..0x48).contains(&second) {
+                code.push(pointer_biased(&mut rng));
             }
-            if idx == 96 * 11 + 3 {
-                rep.sample(obj![("tier", "two-byte forms"), ("first", format!("{:#04x}", first)), ("second", format!("{:#04x}", second)), ("samples", two_byte_samples)]);
-            }
-            return;
+            let mut init = random_init(&mut rng, code_at, &code);
+            init.regs[3] = code_at;
+            emit("two_byte", &init, 1, Some(second));
         }
-        idx -= n_two;
-        if idx < n_misc {
-            // PUSH/POP/PUSHF/POPF (0x10-0x1F), CALL/RETI (0x28-0x2F), DEC forms (0x50-0x5F), NOP/CLR/EI/DI
-            let ops: Vec<u8> = (0x10..=0x1F).chain(0x28..=0x2F).chain(0x50..=0x5F).chain(0x02..=0x0F).chain(0x20..=0x27).collect();
-            let op = ops[idx % ops.len()];
-            for _ in 0..misc_samples {
-                let code_at = if rng.chance(1, 8) { 0xEC + rng.below(4) as u8 } else { 0x08 + rng.below(0xD0) as u8 };
-                let code = vec![op, pointer_biased(&mut rng)];
-                let mut init = random_init(&mut rng, code_at, &code);
-                init.regs[3] = code_at;
-                let res = run_case(&template, &init, 1, rep, None);
-                record(rep, &init, 1, res);
-                rep.count("misc_cases", 1);
-            }
-            return;
+        return;
+    }
+    idx -= N_TWO;
+    if idx < N_MISC {
+        // PUSH/POP/PUSHF/POPF (0x10-0x1F), CALL/RETI (0x28-0x2F), DEC forms (0x50-0x5F), NOP/CLR/EI/DI, JR
+        let ops: Vec<u8> = (0x10..=0x1F).chain(0x28..=0x2F).chain(0x50..=0x5F).chain(0x02..=0x0F).chain(0x20..=0x27).collect();
+        let op = ops[idx % ops.len()];
+        for _ in 0..sz.misc_samples {
+            let code_at = if rng.chance(1, 8) { 0xEC + rng.below(4) as u8 } else { 0x08 + rng.below(0xD0) as u8 };
+            let code = vec![op, pointer_biased(&mut rng)];
+            let mut init = random_init(&mut rng, code_at, &code);
+            init.regs[3] = code_at;
+            emit("misc", &init, 1, None);
         }
-        idx -= n_misc;
-        for k in 0..10 {
-            let init = random_program(&mut rng);
-            let n = 200 + rng.usize(2800);
-            let res = run_case(&template, &init, n, rep, None);
-            rep.count("seq_programs", 1);
-            rep.count("seq_instructions", res.compared);
-            if idx == 0 && k == 0 {
-                rep.sample(obj![("tier", "sequence"), ("program_first_32_bytes", hex(&init.ram[..32])), ("instructions_compared", res.compared), ("ended_by", res.end)]);
+        return;
+    }
+    for _ in 0..10 {
+        let init = random_program(&mut rng);
+        let n = 200 + rng.usize(2800);
+        emit("seq", &init, n, None);
+    }
+}
+
+pub fn run(ctx: &Ctx) -> Report {
+    let template = real::blank_machine();
+    let sz = Sizes {
+        two_byte_samples: ctx.size(400, 6000) as usize,
+        misc_samples: ctx.size(2000, 40_000) as usize,
+        seq_programs: ctx.size(5000, 150_000) as usize,
+        alu_stride: 1,
+    };
+    let mut rep = par_items(ctx.threads, n_items(&sz), ctx.seed, |i, seed, rep| {
+        let mut first_seq = i == n_items(&sz) - 1;
+        cases(i, seed, &sz, &mut |group, init, n, hint| {
+            let res = run_case(&template, init, n, rep, hint);
+            match group {
+                "alu" => rep.count("alu_cases", 1),
+                "unary" => rep.count("unary_cases", 1),
+                "jr" => rep.count("jr_cases", 1),
+                "fr" => rep.count("fr_cases", 1),
+                "two_byte" => rep.count("two_byte_cases", 1),
+                "misc" => rep.count("misc_cases", 1),
+                _ => {
+                    rep.count("seq_programs", 1);
+                    rep.count("seq_instructions", res.compared);
+                    if first_seq {
+                        first_seq = false;
+                        rep.sample(obj![("tier", "sequence"), ("program_first_32_bytes", hex(&init.ram[..32])), ("registers_r0_r1_r2_pc_fr_sp", init.regs.to_vec()), ("instructions_compared", res.compared), ("ended_by", res.end)]);
+                    }
+                }
             }
-            record(rep, &init, n, res);
+            record(rep, init, n, res);
+        });
+        if i < N_ALU {
+            rep.count("alu_pairs_exhaustive", 256);
+            if i == 0x23 * 256 + 0x9C {
+                rep.sample(obj![("tier", "exhaustive ALU work item"), ("opcode", format!("{:#04x}", ALU_BASES[(i / 256) / 16] | ((i / 256) % 16) as u8)), ("rd_value", i % 256), ("rs_values", "0..=255"), ("carry_in", "0,1")]);
+            }
         }
     });
     let fb = rep.marks_in(0, 256);
